@@ -46,8 +46,8 @@ def explore(ctx, extended=False, focus=None):
                "class; compared structurally (insertion order, zero coefficients) with the Lean model, evaluated against an "
                "independent evaluator on a random assignment, operands snapshotted before/after each operation; fieldinverse on "
                "boundary and random arguments; distinct = distinct (backend, expression) / (backend, argument)")
-    n_expr = ctx.n(150, 3000) * (3 if extended else 1)
-    n_inv = ctx.n(40, 1500) * (3 if extended else 1)
+    n_expr = ctx.n(750, 15000) * (3 if extended else 1)
+    n_inv = ctx.n(200, 7500) * (3 if extended else 1)
     for be in BACKENDS:
         w = common.Worker(be, "worker_lc.py")
         try:
